@@ -9,6 +9,7 @@ pub mod c08;
 pub mod c09;
 pub mod c10;
 pub mod c11;
+pub mod c12;
 pub mod c15;
 pub mod c16;
 pub mod c17;
@@ -28,6 +29,7 @@ pub fn dispatch(ctx: &Ctx) -> Option<(Report, Meta)> {
         "C09" => c09::run(ctx),
         "C10" => c10::run(ctx),
         "C11" => c11::run(ctx),
+        "C12" => c12::run(ctx),
         "C15" => c15::run(ctx),
         "C16" => c16::run(ctx),
         "C17" => c17::run(ctx),
